@@ -35,8 +35,34 @@ def edit_distance(a, b):
     return prev[-1]
 
 
-def form_thresholds(form):
+_SRC_CONSTS = {}
+
+
+def source_constants(form):
+    """numeric literals written in the form's module (inline limits of the
+    2021/2022 if/elif chains, band edges, ...): candidates for boundary values"""
+    import ast
+    import inspect
+    cls = type(form)
+    if cls in _SRC_CONSTS:
+        return _SRC_CONSTS[cls]
     out = set()
+    try:
+        tree = ast.parse(inspect.getsource(inspect.getmodule(cls)))
+        for node in ast.walk(tree):
+            if isinstance(node, ast.Constant) and isinstance(node.value, (int, float)) and not isinstance(node.value, bool):
+                if 10 <= abs(node.value) <= 10 ** 8:
+                    out.add(float(node.value))
+    except Exception:
+        pass
+    if len(out) > 200:
+        out = set()      # data tables (tax tables), not limits
+    _SRC_CONSTS[cls] = sorted(out)
+    return _SRC_CONSTS[cls]
+
+
+def form_thresholds(form):
+    out = set(source_constants(form))
     for v in getattr(form, '_thresholds', {}).values():
         vals = v.values() if isinstance(v, dict) else [v]
         for x in vals:
